@@ -159,7 +159,19 @@ def _root_name(f: ast.AST) -> Optional[str]:
     return f.id if isinstance(f, ast.Name) else None
 
 
-def _consumed_read_only(node: ast.AST, parents: Dict[int, ast.AST]) -> bool:
+def _is_one_dim(e: ast.AST) -> bool:
+    """Is the value of e certainly a 1-D array?  (np.unique / np.flatnonzero / np.arange / .ravel() / .flatten() without axis.)"""
+    if isinstance(e, ast.Call) and isinstance(e.func, ast.Attribute):
+        if e.func.attr in ("unique", "sort") and _root_name(e.func) in _PURE_NS and not any(k.arg == "axis" for k in e.keywords) and len(e.args) == 1:
+            return e.func.attr == "unique" or _is_one_dim(e.args[0])
+        if e.func.attr in ("arange", "flatnonzero") and _root_name(e.func) in _PURE_NS:
+            return True
+        if e.func.attr in ("ravel", "flatten") and not e.args:
+            return True
+    return False
+
+
+def _consumed_read_only(node: ast.AST, parents: Dict[int, ast.AST], one_dim: bool = False) -> bool:
     """Is this read of a freshly created object consumed by an operation that neither keeps a reference to it (or to a view
     of it) nor modifies it?  (arithmetic / comparison operand, index position, argument of a numpy / scipy / builtin function
     that returns a new object, `.astype()`-like methods, `.shape`-like attributes.)"""
@@ -184,6 +196,8 @@ def _consumed_read_only(node: ast.AST, parents: Dict[int, ast.AST]) -> bool:
                 # indexing *by* the object; fancy-index stores through it do not modify it
                 return True
             if isinstance(par.ctx, ast.Load):
+                if one_dim and cur is node and not any(isinstance(x, ast.Slice) for x in ast.walk(par.slice)) and not isinstance(par.slice, ast.Tuple):
+                    return True  # element(s) of a 1-D array picked by an integer / integer-array index: a scalar or a copy, never a view
                 cur = par  # a view of the object: judged by what consumes the view
                 continue
             return False
@@ -924,7 +938,7 @@ def inline_new_module_constants(repo) -> List[str]:
                     parents[id(ch)] = par
             for k in list(use):
                 reads = [n for n in ast.walk(fi.node) if isinstance(n, ast.Name) and n.id == k]
-                if not all(isinstance(n.ctx, ast.Load) and (_immutable_value(use[k]) or _consumed_read_only(n, parents) or _method_read(n, parents)) for n in reads):
+                if not all(isinstance(n.ctx, ast.Load) and (_immutable_value(use[k]) or _consumed_read_only(n, parents, _is_one_dim(use[k])) or _method_read(n, parents)) for n in reads):
                     use.pop(k)
             if use:
                 sub = _Subst(use)
